@@ -52,6 +52,15 @@ def gen_solve(draw, tier="quick"):
         case = draw(kc.configs(tier, max_cond=12 if tier == "quick" else 40))
     fdim = kc.field_dim(case["spec"])
     spec = case["spec"]
+    c1 = case["cfg"]
+    has_err = (c1.get("cond_err") == "nugget" and spec["nugget"] > 0) or (c1.get("cond_err") == "scalar" and c1.get("err_val", 0) > 0)
+    if has_err and not c1["exact"] and all(isinstance(v, float) and v == v for v in case["cond_val"]) and draw(st.integers(0, 3)) == 0:
+        # repeated measurements: a second value at the location of the first conditioning point (regular system thanks to the
+        # measurement error / nugget on the diagonal)
+        for row in case["cond_pos"]:
+            row.append(row[0])
+        case["cond_val"].append(float(case["cond_val"][0] + draw(st.sampled_from([0.7, -0.4, 0.0]))))
+        case["dup"] = True
     m = draw(st.integers(1, 6))
     if spec.get("latlon"):
         lat = draw(st.lists(st.floats(-90, 90), min_size=m, max_size=m))
@@ -120,6 +129,8 @@ def check_solve(case, rec):
     rec.label(cfg["variant"], cfg["geo"], spec["cls"], "exact" if cfg["exact"] else "inexact", "err_" + str(cfg.get("cond_err")))
     if case.get("unit"):
         rec.label(f"unit_{case['unit']:g}", f"unit_{case['unit']:g}_err_{cfg.get('cond_err')}")
+    if case.get("dup"):
+        rec.label("repeated_measurement_at_one_location")
     cond_pos = np.array(case["cond_pos"], dtype=float).reshape(fdim, -1)
     pos = np.array(case["pos"], dtype=float).reshape(fdim, -1)
     only_mean = case["only_mean"]
